@@ -284,6 +284,7 @@ def lsf_rules(repo, rep):
 
 def run(repo, rep):
     alg.reset()
+    common.typecheck_rules(repo, rep)
     common.state_rule(repo, rep, [('geodepy.geodesy', 'vincdir_utm'), ('geodepy.geodesy', 'vincinv_utm'), ('geodepy.geodesy', 'line_sf')])
     rep.trust('opaque call atoms carry every formal parameter of the callee (defaults explicit); sv/alg.py normal forms')
     rep.trust('reference: Deakin (2010) Traverse computations on the ellipsoid and on the UTM projection, eq. 13')
